@@ -7,10 +7,10 @@
 From Coq Require Import String.
 From Coq Require Import List NArith Bool.
 From Wbxml Require Import Model.Codec Model.TablesDefs Gen.TablesData Model.Parser Model.TreeBuild Model.TreeConv Model.Conv Model.ConvConcrete
-     Proofs.TreeBuildProofs Proofs.TreeBuildProofs3 Proofs.TreeRoundTrip Proofs.ConvRoundTrip Proofs.ConvSecondIter Proofs.ConvFirstToSecond Proofs.ConvSecondIndent.
+     Proofs.TreeBuildProofs Proofs.TreeBuildProofs3 Proofs.TreeRoundTrip Proofs.ConvRoundTrip Proofs.ConvSecondIter Proofs.ConvFirstToSecond Proofs.ConvSecondIndent Proofs.ConvSecondNs.
 From Wbxml Require Model.EncWbxml Model.EncWbxmlTables Model.TreeNorm Proofs.EncWbxmlProofs Proofs.EncWbxmlSerialize Proofs.EncWbxmlDenote.
 From Wbxml Require Model.EncXml Model.XmlRead Proofs.EncXmlProofs Proofs.EncXmlIndent.
-From Wbxml Require Model.XmlFront Model.ConvXml2Wbxml Model.LangSelect Proofs.FrontSimple.
+From Wbxml Require Model.XmlFront Model.ConvXml2Wbxml Model.LangSelect Proofs.FrontSimple Proofs.FrontSimpleNs.
 Import ListNotations.
 Local Open Scope N_scope.
 
@@ -289,6 +289,51 @@ Theorem C03_normal_form_ignores_blank_text_between_markup : forall L it, NN L (E
 Proof. exact NN_nb. Qed.
 Print Assumptions C03_normal_form_ignores_blank_text_between_markup.
 
+(* ================================ languages with a namespace table ================================ *)
+
+(* "Namespace declarations regenerated": the generator writes xmlns="<namespace of the code page>" on the root element and on
+   every element whose code page differs from its parent's (spec_ns); an XML parser in namespace mode - Expat as
+   wbxml_tree_from_xml creates it, XML_ParserCreateNS(NULL, '|') - does not report these as attributes but prefixes element
+   names: "namespace|local" (events_of_info_ns; the namespace in force is inherited); the front end finds the code page by the
+   namespace and the tag by the local name (resolve_tag).  For a tree whose tags are table rows under their own code page, every
+   code page having a namespace (ns_ok), and whose qualified names resolve back to the tags (fgood for the naming function en),
+   the second trip rebuilds the tree and reproduces x.  PARTIAL as C03_second_iteration_identical_partial (compact / canonical
+   generation, hypotheses on R2 stated; the indented case and the derivation from the source are proved for languages without
+   namespace table only). *)
+Theorem C03_second_iteration_namespaces_partial :
+  forall (main TBL : list lang) (btbl : list EncWbxml.blang) (sub : EncWbxml.bytes -> XmlFront.xtree + N)
+         (L : lang) (nst : list EncXml.nsrow) l o o' p t opts nm ch2 x,
+  let R2 := EncWbxml.NElt (EncWbxml.TagTok p t opts nm) [] ch2 in
+  let root' := tnode_of R2 in
+  let xl := EncXml.xlang_of L in
+  let xo := EncXml.opts_of_params (gen_of (wo_gen o')) (wo_indent o') (wo_keep_ws o') in
+  EncXml.enc_xml_opts xl xo [to_xnode TBL L root'] = EncXml.XOk x ->
+  EncXmlProofs.lang_ok xl = true -> EncXmlIndent.node_ok_g xl xo EncXml.proot None (to_xnode TBL L root') = true ->
+  EncXml.is_indent xo = false -> EncXml.xl_ns xl = Some nst -> EncXml.is_syncml xl = false ->
+  tgood L xo root' -> ns_ok L nst R2 -> FrontSimpleNs.fgood (en nst) L 0 R2 ->
+  LangSelect.search_table main (option_map XmlFront.str (EncXml.xl_pub xl)) (Some (XmlFront.str (EncXml.xl_dtd xl))) None = Some L ->
+  TElt (TagTok p t nm) [] (merge_text (flat_map tn (flat_map (TreeNorm.norm_node (EncWbxml.o_keep_ws o) false) ch2))) = root' ->
+  EncWbxml.find_lang btbl (l_id L) = Some l ->
+  EncWbxmlSerialize.frag_lang l = true -> EncWbxml.o_use_strtbl o = false -> EncWbxmlProofs.no_pid (EncWbxml.enc_env l o) = true ->
+  EncWbxmlSerialize.frag_node R2 = true ->
+  find (fun y => l_id y =? l_id L) TBL = Some L ->
+  lang_choice TBL L (EncWbxml.header_public_id (EncWbxml.enc_env l o)) (wo_lang o') -> wo_charset o' = 0 ->
+  EncWbxmlDenote.tree_ok L 0 R2 = true ->
+  EncWbxml.o_version o < 4 -> EncWbxml.header_public_id (EncWbxml.enc_env l o) < 4294967296 ->
+  EncWbxml.header_public_id (EncWbxml.enc_env l o) <> 0 ->
+  no_data (flat_map EncWbxmlDenote.events_node (TreeNorm.norm (EncWbxml.o_keep_ws o) [R2])) = true ->
+  exists c d,
+    d = EncXmlProofs.doc_of xl [XmlRead.XE (EncXml.tname_bytes (to_tname L (TagTok p t nm)))
+                                         (EncXmlProofs.spec_ns xl EncXml.proot (to_tname L (TagTok p t nm))) c] /\
+    (forall fuel, (EncXmlProofs.node_fuel (to_xnode TBL L root') + 2 <= fuel)%nat -> XmlRead.read_xml fuel x = XmlRead.ROk d) /\
+    events_of_info_ns d = FrontSimpleNs.doc_events (en nst) (EncXml.xl_root xl) (Some (EncXml.xl_dtd xl)) (EncXml.xl_pub xl) R2 /\
+    forall doc2, doc2 <> [] ->
+      XmlFront.tree_from_xml main sub doc2 (events_of_info_ns d) true = inl (XmlFront.mk_xtree (l_id L) 0 [R2]) /\
+      exists w2, r_out (ConvXml2Wbxml.xml2wbxml_events main btbl sub (events_of_info_ns d) true o doc2) = Some w2 /\
+                 wbxml2xml_model TBL o' w2 = mk_res ST_OK (Some (x ++ [0])) (N.of_nat (length x)).
+Proof. exact second_iteration_ns. Qed.
+Print Assumptions C03_second_iteration_namespaces_partial.
+
 (* ---- the hypotheses are satisfiable: a WML 1.3 deck through BOTH conversion functions, by computation ----
    <!DOCTYPE wml PUBLIC "-//WAPFORUM//DTD WML 1.3//EN" ...><wml><card><p> a </p><p>  </p></card></wml>
    encoder: WBXML 1.3, no string table, keep_ws off;  generator: compact, language not forced. *)
@@ -421,3 +466,52 @@ Example C03_ex_indent_keep_ws_grows : ex_two_trips true = Some (160%nat, 174%nat
 Proof. vm_compute. reflexivity. Qed.
 Example C03_ex_indent_keep_ws_off_identical : ex_two_trips false = Some (160%nat, 160%nat, true).
 Proof. vm_compute. reflexivity. Qed.
+
+(* alias in the form the brief asks for: the claim "the second iteration reproduces x" is refuted for indent + keep_ws on *)
+Example C03_indent_keepws_grows_refuted : ex_two_trips true = Some (160%nat, 174%nat, false).
+Proof. exact C03_ex_indent_keep_ws_grows. Qed.
+
+(* ---- a language with a namespace table: DevInf 1.1, <DevInf xmlns="syncml:devinf"><VerDTD>1.1</VerDTD><Man> x </Man></DevInf> ---- *)
+Definition ex_ns_evs : list XmlFront.event :=
+  [XmlFront.EvStartDoctype (XmlFront.bs "DevInf") (Some (XmlFront.bs "http://www.syncml.org/docs/devinf_v11_20020215.dtd")) (Some (XmlFront.bs "-//SYNCML//DTD DevInf 1.1//EN"));
+   XmlFront.EvStartElement (XmlFront.bs "syncml:devinf|DevInf") [] 0;
+   XmlFront.EvStartElement (XmlFront.bs "syncml:devinf|VerDTD") [] 0; XmlFront.EvCharacters (XmlFront.bs "1.1"); XmlFront.EvEndElement (XmlFront.bs "syncml:devinf|VerDTD") 0;
+   XmlFront.EvStartElement (XmlFront.bs "syncml:devinf|Man") [] 0; XmlFront.EvCharacters (XmlFront.bs " x "); XmlFront.EvEndElement (XmlFront.bs "syncml:devinf|Man") 0;
+   XmlFront.EvEndElement (XmlFront.bs "syncml:devinf|DevInf") 0].
+Definition ex_ns_o := EncWbxml.mk_opts 2 false false false.
+Definition ex_ns_R2 : EncWbxml.node :=
+  EncWbxml.NElt (EncWbxml.TagTok 0 10 0 (XmlFront.bs "DevInf")) []
+    [EncWbxml.NElt (EncWbxml.TagTok 0 37 0 (XmlFront.bs "VerDTD")) [] [EncWbxml.NText (XmlFront.bs "1.1")];
+     EncWbxml.NElt (EncWbxml.TagTok 0 17 0 (XmlFront.bs "Man")) [] [EncWbxml.NText (XmlFront.bs "x")]].
+Definition ex_ns_trip (ev : list XmlFront.event) : option (bytes * bytes) :=
+  match r_out (ConvXml2Wbxml.xml2wbxml_events main_table EncWbxmlTables.main_btable ex_sub ev true ex_ns_o [60]) with
+  | Some w => match r_out (wbxml2xml_model main_table ex_o' w) with Some x => Some (w, firstn (length x - 1) x) | None => None end
+  | None => None
+  end.
+Example C03_ex_namespaces :
+  match ex_ns_trip ex_ns_evs with
+  | Some (w1, x1) =>
+    x1 = bytes_of_string "<?xml version=""1.0""?><!DOCTYPE DevInf PUBLIC ""-//SYNCML//DTD DevInf 1.1//EN"" ""http://www.syncml.org/docs/devinf_v11_20020215.dtd""><DevInf xmlns=""syncml:devinf""><VerDTD>1.1</VerDTD><Man>x</Man></DevInf>"
+    /\ match XmlRead.read_xml_auto x1 with
+       | XmlRead.ROk d =>
+         XmlFront.tree_from_xml main_table ex_sub [60] (events_of_info_ns d) true = inl (XmlFront.mk_xtree 2102 0 [ex_ns_R2])
+         /\ match ex_ns_trip (events_of_info_ns d) with Some (w2, x2) => x2 = x1 | None => False end
+       | _ => False
+       end
+  | None => False
+  end.
+Proof. vm_compute. repeat split; reflexivity. Qed.
+
+Example C03_ex_namespaces_hypotheses :
+  match find (fun x => l_id x =? 2102) main_table with
+  | Some L =>
+    match EncXml.xl_ns (EncXml.xlang_of L) with
+    | Some nst => ns_ok L nst ex_ns_R2 /\ FrontSimpleNs.fgood (en nst) L 0 ex_ns_R2 /\ EncXml.is_syncml (EncXml.xlang_of L) = false
+    | None => False
+    end
+  | None => False
+  end.
+Proof.
+  vm_compute. repeat split; try reflexivity; try discriminate; try (right; reflexivity); try (left; reflexivity).
+  all: try (eexists; eexists; repeat split; reflexivity); repeat constructor.
+Qed.
